@@ -52,6 +52,29 @@ CHECKS += [
      "design_ref": "DESIGN.md 4/C16", "technique": TLA + " (Options.tla bad-line laws)",
      "note": "mutated text is judged for crash/hang only; include cycles not modelled"},
 ]
+
+ENGINES += [
+    {"name": "pipeline", "path": "spec/Pipeline.tla spec/PipelineTrace.tla spec/Fusion.tla spec/FusionTrace.tla vlib/fusion.py vlib/lex.py vlib/hazard.py vlib/checks/pipeline_engine.py",
+     "serves_properties": ["C02", "C03"],
+     "kind_free_text": "TLA+ model of the chunk list and the pass schedule of uncrustify_file(): pass classes with contracts over six projections of the list, an abstract Render/Lex on which TLC shows that the five contract clauses imply token and comment preservation (each clause switched off yields a counterexample); Fusion.tla classifies every ordered token pair of the binary's own punctuator table against a maximal-munch lexer and the transcribed safety check of space_text(); every pair is replayed on the binary, and real runs (hook digests after each of the ~70 passes + independent lexer on input and output) are judged by the trace specifications"},
+    {"name": "output", "path": "spec/Output.tla spec/OutputTrace.tla spec/StartEnd.tla vlib/checks/c17.py",
+     "serves_properties": ["C17"],
+     "kind_free_text": "character-level TLA+ transcription of the writer (add_char, output_to_column, newline / first-on-line / mid-line chunk handling of output_text); TLC checks IndentHygiene and NoTrailingBlank for every chunk list up to the bound and every tab policy; every output line of real runs is projected to (leading-whitespace word, line class, trailing blank) and judged with the same predicates by the trace specification"},
+]
+CHECKS += [
+    {"id": "C02", "engine": "pipeline", "level": "model_checking",
+     "text": "Fusion.tla: all ordered pairs over the punctuator table of each language plus word / number / literal / comment representatives are classified exhaustively (safe / guarded / open) and the guard invariants checked; every pair is rendered into 2-3 contexts and run with all spacing options at remove (and ignore / force), the re-lexed snippet judged by FusionTrace. Pipeline.tla: all chunk lists <= 4 x <= 2 newline edits x all gap assignments; corpus pairs, corpus inputs x seeded random whitespace configurations, and comment-dense programs x every newline / position option singly are run with the pass hooks, each pass judged against its contract class and the end-to-end token streams compared (independent lexer for the C family, uncrustify's own tokenizer on the output for all nine languages).",
+     "design_ref": "DESIGN.md 4/C02", "technique": TLA + " (Fusion.tla pair classification, Pipeline.tla pass contracts)",
+     "note": "token identity is by the independent lexer vlib/lex.py (C, C++, ObjC, Java, C#) used differentially; '>>' vs '> >' and '[]' vs '[ ]' are identified; whitespace-only configurations by option-name filter"},
+    {"id": "C03", "engine": "pipeline", "level": "model_checking",
+     "text": "Pipeline.tla CommentsPreserved is model-checked on every list <= 4 chunks containing both comment kinds; real runs: corpus pairs, corpus inputs x random whitespace configurations, generated programs with 24 comment shapes x 23 literal shapes at every marked grammar position, and comment-dense programs x every newline / position option singly; per-pass comment / string digests (mechanism) and comment / literal sequences of input vs output (property) are judged by PipelineTrace.",
+     "design_ref": "DESIGN.md 4/C03", "technique": TLA + " (Pipeline.tla comment / literal clauses)",
+     "note": "comment text compared modulo CmtNorm; comment- and string-rewriting options excluded as the statement says; the '*x' -> '* x' leader rewrite is a known finding"},
+    {"id": "C17", "engine": "output", "level": "model_checking",
+     "text": "Output.tla (the writer transcribed character by character) satisfies IndentHygiene and NoTrailingBlank for every chunk list <= 3 (4 thorough) over columns {1,2,4,5,9} and all 96 tab-policy combinations, and the variant with align_keep_tabs applied to the first chunk of a line violates it; on the binary every output line of corpus inputs with seeded dirty whitespace x a crossed tab / indent / align configuration set, dense programs x all those configurations and corpus pairs is judged with the same predicates, plus the end-of-file policy of StartEnd.tla.",
+     "design_ref": "DESIGN.md 4/C17", "technique": TLA + " (Output.tla writer model)",
+     "note": "line classes from the independent lexer on the output (C family); inputs that begin with a line splice and nested C# interpolated verbatim strings are skipped; comment writers are an environment of the model"},
+]
 _PENDING = "check not built yet in this commit (specification module planned in DESIGN.md 3.1); will be claimed when its check is quiet on the unchanged tree"
 NOT_APPLICABLE = [{"property_id": "C%02d" % i, "reason": _PENDING} for i in range(1, 21) if "C%02d" % i not in {c["id"] for c in CHECKS}]
 NOTES = "All checks: bin/check <ID> --tier quick|thorough; VERIF_SEED is honoured; evidence in /verif/evidence/<ID>.json; known findings in /verif/known_findings.json."
